@@ -107,12 +107,15 @@ Definition has_slash (x : str) : bool := existsb (ch_eqb slash) x.
    href of the first <a> element that HAS an href when [has_link], and the whole text otherwise
    (pre = post = []).  [dead_only]: the text contains <a> elements but none with an href (unresolved
    [[references]]): it is returned unchanged.
+   Text without a link is only rewritten when it is an absolute path name (the URL of a static page);
+   other text that happens to contain a slash is returned unchanged.
    href and page are absolute path names (or href starts with "http"). *)
 Definition relative_url_str (pre href post : str) (has_link dead_only : bool) (page : str) : str :=
   let whole := pre ++ href ++ post in
   if negb (has_slash whole) then whole
   else if dead_only then whole
   else if has_link && starts_with (s "http") href then whole
+  else if negb has_link && negb (starts_with [slash] whole) then whole   (* plain text, not a path *)
   else
     let link_path := if has_link then normpath_str href else whole in
     let new_path := render_rel (relpath (split_path link_path) (parent (normalise (split_path page)))) in
@@ -122,7 +125,9 @@ Definition relative_url_str (pre href post : str) (has_link dead_only : bool) (p
 
 Definition ghost : str := s "non-existent dir".
 
-(* MetaMarkdown.convert: base_url / Path(url).parent.parent / "non-existent dir" *)
+(* MetaMarkdown.convert: base_url / Path(url).parent.parent / "non-existent dir", where url is the URL
+   of the documented entity or, when it has none (a type declared inside a procedure ...), of its
+   nearest parent that has one *)
 Definition doc_current_path (base ctx : list str) : list str := base ++ parent (parent ctx) ++ [ghost].
 
 (* FordLinkProcessor.convert_link / RelativeLinksTreeProcessor: relpath(base_url / item_url, current_path) *)
